@@ -83,6 +83,11 @@ def isPrompt : Ev → Bool
   | .tx .prompt _ => true
   | _ => false
 def countPrompts (evs : List Ev) : Nat := (evs.filter isPrompt).length
+def isEntered : Ev → Bool
+  | .entered => true
+  | _ => false
+/-- the Enter keys handled: typed by the client or fed by a command handler into its own session -/
+def countEntered (evs : List Ev) : Nat := (evs.filter isEntered).length
 def isTag : Ev → Bool
   | .tag _ => true
   | _ => false
@@ -110,7 +115,8 @@ def feedAll (cfg : Cfg) : Nat → Str → List Str → List Ev × Nat × Str
 /-! ### sessions -/
 
 /-- the session slots an op may change: its own slot, and for a loop pass exactly the slots whose
-CURRENT session (slot, generation = the session token) has an exit task queued -/
+CURRENT session (slot, generation = the session token) has an exit task queued, or whose disconnect was
+requested by a command handler (`endSession()`) -/
 def touches (w : World) : Op → Nat → Bool
   | .openS _, j => j == w.cur
   | .recv _, j => j == w.cur
@@ -119,10 +125,10 @@ def touches (w : World) : Op → Nat → Bool
   | .xconn k, j => j == k
   | .xrecv k _, j => j == k
   | .xdisc k, j => j == k
-  | .pass, j => w.exits.contains (j, (w.slot j).gen)
-  | .sstart, j => j == 7 || w.exits.contains (j, (w.slot j).gen)
-  | .srecv _, j => j == 7 || w.exits.contains (j, (w.slot j).gen)
-  | .sstop, j => j == 7 || w.exits.contains (j, (w.slot j).gen)
+  | .pass, j => w.exits.contains (j, (w.slot j).gen) || (w.slot j).ending
+  | .sstart, j => j == 7 || w.exits.contains (j, (w.slot j).gen) || (w.slot j).ending
+  | .srecv _, j => j == 7 || w.exits.contains (j, (w.slot j).gen) || (w.slot j).ending
+  | .sstop, j => j == 7 || w.exits.contains (j, (w.slot j).gen) || (w.slot j).ending
   | .teardown, _ => true
   | _, _ => false
 
